@@ -224,6 +224,98 @@ Section ResolveProofs.
     - exfalso. apply H2. exact C.
   Qed.
 
+  (* ---------------------------------------------------------------- the chain ends in one way only *)
+  Lemma symlink_before_target n k c h t :
+    chain n k = Some c -> n_symlink c = true -> reaches_target n h t -> k < h.
+  Proof.
+    intros Hk Hs [Hc Ht]. destruct (le_lt_dec h k) as [Hle|]; [|assumption]. exfalso.
+    destruct (Nat.eq_dec h k) as [->|Hne]; [congruence|].
+    rewrite (chain_after_target _ _ _ Hc Ht k) in Hk; [discriminate|lia].
+  Qed.
+
+  Lemma symlink_before_missing n k c m :
+    chain n k = Some c -> hits_missing n m -> k < m.
+  Proof.
+    intros Hk Hm. destruct (le_lt_dec m k) as [Hle|]; [|assumption]. exfalso.
+    rewrite (chain_none_ge _ _ (hits_missing_none _ _ Hm) k Hle) in Hk. discriminate.
+  Qed.
+
+  Lemma reaches_unique n h t h' t' : reaches_target n h t -> reaches_target n h' t' -> h = h' /\ t = t'.
+  Proof.
+    intros [Hc Ht] [Hc' Ht'].
+    destruct (Nat.lt_trichotomy h h') as [Hlt|[->|Hgt]].
+    - rewrite (chain_after_target _ _ _ Hc Ht h' Hlt) in Hc'. discriminate.
+    - split; congruence.
+    - rewrite (chain_after_target _ _ _ Hc' Ht' h Hgt) in Hc. discriminate.
+  Qed.
+
+  Lemma target_missing_exclusive n h t m : reaches_target n h t -> hits_missing n m -> False.
+  Proof.
+    intros [Hc Ht] Hm. pose proof (hits_missing_none _ _ Hm) as Hn.
+    destruct Hm as [s [Hm0 [Hcs [Hss Hg]]]].
+    destruct (le_lt_dec m h) as [Hmh|Hmh].
+    - rewrite (chain_none_ge _ _ Hn h Hmh) in Hc. discriminate.
+    - destruct (Nat.eq_dec (pred m) h) as [E|E].
+      + rewrite E in Hcs. congruence.
+      + rewrite (chain_after_target _ _ _ Hc Ht (pred m)) in Hcs; [discriminate|lia].
+  Qed.
+
+  Lemma missing_unique n m m' : hits_missing n m -> hits_missing n m' -> m = m'.
+  Proof.
+    intros H H'. pose proof (hits_missing_none _ _ H) as Hn. pose proof (hits_missing_none _ _ H') as Hn'.
+    destruct H as [s [Hm0 [Hcs _]]]. destruct H' as [s' [Hm0' [Hcs' _]]].
+    destruct (Nat.lt_trichotomy m m') as [Hlt|[E|Hgt]]; [|exact E|].
+    - rewrite (chain_none_ge _ _ Hn (pred m')) in Hcs'; [discriminate|lia].
+    - rewrite (chain_none_ge _ _ Hn' (pred m)) in Hcs; [discriminate|lia].
+  Qed.
+
+  (* ---------------------------------------------------------------- lookups are bounded *)
+  Lemma loop_i_spec : forall f fast slow adv,
+    let '(r, a, b) := loop_i peqb get f fast slow adv in
+    r = loop f fast slow adv /\ a <= f /\ b <= a /\
+    (r = RDepth -> a = f) /\
+    (forall t, r = ROk t -> chain fast a = Some t) /\
+    (r = RNotExist -> a <> 0) /\ (r = RCycle -> a <> 0).
+  Proof.
+    induction f as [|f IH]; intros fast slow adv; cbn [Model.loop_i Model.loop].
+    - repeat split; auto; try discriminate.
+    - destruct (n_symlink fast) eqn:Es; cbn [negb].
+      2:{ repeat split; auto; try lia; try discriminate. intros t H. injection H as <-. reflexivity. }
+      destruct (get (n_target fast)) as [nx|] eqn:Eg.
+      2:{ repeat split; auto; try lia; discriminate. }
+      assert (Hstep : forall k, chain fast (S k) = chain nx k).
+      { intros k. change (S k) with (1 + k). apply chain_shift. cbn. rewrite Es. exact Eg. }
+      destruct (peqb (n_path nx) (n_path slow)).
+      { repeat split; auto; try lia; discriminate. }
+      destruct adv.
+      + destruct (get (n_target slow)) as [s'|].
+        2:{ repeat split; auto; try lia; discriminate. }
+        specialize (IH nx s' false). destruct (loop_i peqb get f nx s' false) as [[r a] b].
+        destruct IH as [H1 [H2 [H3 [H4 [H5 _]]]]].
+        split; [exact H1|]. split; [lia|]. split; [lia|]. split; [intros H; rewrite (H4 H); reflexivity|].
+        split; [intros t H; rewrite Hstep; apply H5; exact H|]. split; intros _; lia.
+      + specialize (IH nx slow true). destruct (loop_i peqb get f nx slow true) as [[r a] b].
+        destruct IH as [H1 [H2 [H3 [H4 [H5 _]]]]].
+        split; [exact H1|]. split; [lia|]. split; [lia|]. split; [intros H; rewrite (H4 H); reflexivity|].
+        split; [intros t H; rewrite Hstep; apply H5; exact H|]. split; intros _; lia.
+  Qed.
+
+  Lemma resolve_fuel_exact_lemma n maxd :
+    let '(r, a, b) := resolve_i peqb get n maxd in
+    r = resolve n maxd /\ a <= S maxd /\ b <= a /\
+    (r = RDepth -> a = S maxd) /\
+    (forall t, r = ROk t -> chain n a = Some t /\ a <= maxd).
+  Proof.
+    unfold Model.resolve_i, Model.resolve. pose proof (loop_i_spec (S maxd) n n false) as H.
+    destruct (loop_i peqb get (S maxd) n n false) as [[r a] b].
+    destruct H as [H1 [H2 [H3 [H4 [H5 _]]]]].
+    split; [exact H1|]. split; [exact H2|]. split; [exact H3|]. split; [exact H4|].
+    intros t Ht. pose proof (H5 t Ht) as Hc. split; [exact Hc|].
+    (* an answer after S maxd hops is impossible: the loop returns Ok only at the top of an iteration *)
+    rewrite H1 in Ht. destruct (resolve_sound_lemma n maxd t Ht) as [h [Hh [Hch [Hs _]]]].
+    destruct (reaches_unique n h t a t (conj Hch Hs) (conj Hc Hs)) as [-> _]. exact Hh.
+  Qed.
+
   (* ---------------------------------------------------------------- one node per path: no false cycle *)
   Hypothesis get_ok : get_consistent get.
 
